@@ -695,7 +695,7 @@ def graph(name):
     return deco
 
 
-def _from_demes(gid, sampled_demes, sample_sizes, pts, sample_times=None, Ne=None):
+def _from_demes(gid, sampled_demes, sample_sizes, pts, sample_times=None, Ne=None, via_file=False):
     import dadi
     g = GRAPHS[gid]()
     kw = {}
@@ -703,6 +703,17 @@ def _from_demes(gid, sampled_demes, sample_sizes, pts, sample_times=None, Ne=Non
         kw['sample_times'] = sample_times
     if Ne is not None:
         kw['Ne'] = Ne
+    if via_file:
+        # the graph handed over as a YAML file name; the same (per-process) name is used for every graph, like a script that
+        # dumps successive candidate models to one file
+        import demes, os
+        path = _tmp('model.yaml')
+        try:
+            demes.dump(g, path)
+            return dadi.Spectrum.from_demes(path, sampled_demes=sampled_demes, sample_sizes=sample_sizes, pts=pts, **kw)
+        finally:
+            if os.path.exists(path):
+                os.unlink(path)
     return dadi.Spectrum.from_demes(g, sampled_demes=sampled_demes, sample_sizes=sample_sizes, pts=pts, **kw)
 
 
